@@ -702,10 +702,10 @@ func verifRollTierOpts(o *verifRollOpts) {
 		return
 	}
 	o.scope = verifScopeCluster
-	o.method = verifRollingInPlace
+	o.method = verifC07Method()
 	o.n, o.nOld = 3, 2
-	o.chk = 2
-	o.reversed = false
+	o.chk = 0
+	o.reversed = verifC07Bool("hook-order-reversed")
 }
 
 // VerifC07_RollingStep: one real syncRollingUpdate over a symbolic rollout
